@@ -417,6 +417,14 @@ func (ctx *actorContext) processMessage(sender, receiver ActorRef, message Messa
 		return
 	}
 
+	if ctx.status.Load() == actorStatusTerminated {
+		// 已终止的 Actor 不再处理任何消息，仅对观察请求作出应答
+		if m, ok := message.(*messages.Watch); ok {
+			ctx.onWatch(m)
+		}
+		return
+	}
+
 	switch m := message.(type) {
 	case onSchedulerFunc:
 		m()
